@@ -372,6 +372,10 @@ def generate(run_seed, deep=False):
                 evaluated[j] = True
         if not live and len(ops) >= 8 and sc.random() < 0.3:
             break
+    G.bitgen_variation(st["bitgen"], ops)
+    G.generator_seed_variation(st["genseed"], ops, lambda r: r.get("op") == "call" and r.get("api") in
+                               ("lganm.new", "gen.dag_avg_deg", "gen.dag_full", "gen.intervention_targets",
+                                "utils.split_data", "utils.add_edges", "utils.remove_edges") and not r.get("posseed"))
     np_star_faults(st["np_star"], ops)
     return cfg, ops
 
@@ -510,6 +514,7 @@ def execute(sempler, run_seed, ops, pristine_budget=4):
     prev_rec = None
     for i, rec in enumerate(ops):
         w.step = i
+        w.client = rec.get("c", 0)
         op = rec["op"]
         pre = w.rng_digest()
         try:
@@ -606,7 +611,7 @@ def fkind(ev):
     rec = ev["rec"]
     op = rec["op"]
     if op == "np.perturb":
-        return "rng." + rec["kind"]
+        return "rng.reseed" if rec["kind"] == "bitgen" else "rng." + rec["kind"]
     if op == "py.random":
         return "rng.stdlib"
     if op == "entropy.draw":
@@ -751,7 +756,7 @@ def oracles(w, pristine_budget):
 
 def pristine_eval(sempler, ops):
     """Runs in a fresh fork of a process that never executed an operation."""
-    w = World(sempler, 0, PROP)
+    w = World(sempler, 0, PROP, reference=True)
     od = None
     for rec in ops:
         out = w.call(invoke(w, rec), arm=rec.get("arm"))
